@@ -23,6 +23,7 @@ func init() {
 			{Name: "graphs", Run: c02Run, QuickS: 240, ThoroughS: 1200},
 			{Name: "typed-cycles", Run: c02Typed, QuickS: 90, ThoroughS: 600},
 			{Name: "sealed-interface-cycles", Run: c02Sealed, Workers: 2, QuickS: 30, ThoroughS: 60},
+			{Name: "dense-dead-end", Run: c02Dense, Workers: 2, QuickS: 60, ThoroughS: 120},
 		},
 	})
 }
